@@ -352,6 +352,34 @@ def eval_pairs(acc, arm, ref, case, th):
                     acc.violation("query_after_argument_advanced_in_place", dict(case, pair=[A, B], advanced=True), err, Q[B][2] * 2)
 
 
+def prime(arm, pts):
+    """Ask the Jacobian / statics queries on THIS arm object (results dropped): whatever they remember is now remembered."""
+    from basic_robotics.general import Wrench
+    with armlib.quiet():
+        for th in pts.values():
+            for f in (lambda q: arm.FK(q), lambda q: arm.jacobian(q), lambda q: arm.jacobianBody(q), lambda q: arm.jacobianEETrans(q),
+                      lambda q: arm.staticForces(Wrench(WBASIS[-1].copy()), q), lambda q: arm.getJointTransforms()):
+                try:
+                    f(th.copy())
+                except Exception:
+                    pass            # a raising query is reported where it is judged, not here
+        for f in (lambda: arm.jacobian(), lambda: arm.jacobianBody()):
+            try:
+                f()
+            except Exception:
+                pass
+
+
+def primed_state(an, hist, seed):
+    """The arm on which every query has been asked at the evaluation points BEFORE the single structural change `hist`."""
+    arm, ref = armlib.build(an, seed)
+    TH = c05.theta_palette(ref)
+    pts0 = theta_points(ref, seed)
+    lim = {k: np.minimum(np.maximum(ref.clamp(v), ref.lo + 1e-3), ref.hi - 1e-3) for k, v in pts0.items()}
+    prime(arm, lim)
+    return apply_hist(arm, ref, hist, TH)
+
+
 def work(p):
     arms = arms_for(p["tier"], p["seed"])
     H = histories()
@@ -378,6 +406,18 @@ def work(p):
                 import traceback
                 acc.violation("raised", case, repr(e) + traceback.format_exc()[-400:])
             acc.case((an, hi, tn), nontrivial=tn != "zero" or hi > 0)
+        if len(H[hi]) == 1:
+            # query, THEN change the structure, then query again at the very same joint vectors (a result remembered across a
+            # tool change or a move is only wrong here)
+            try:
+                arm_p, ref_p = primed_state(an, H[hi], p["seed"])
+                for tn in ("g1", "q"):
+                    thc = np.minimum(np.maximum(ref_p.clamp(pts[tn]), ref_p.lo + 1e-3), ref_p.hi - 1e-3)
+                    eval_point(acc, arm_p, ref_p, {"arm": an, "history": list(H[hi]), "theta": tn, "primed": True}, thc)
+                    acc.case((an, hi, tn, "primed"), nontrivial=True)
+            except Exception as e:
+                import traceback
+                acc.violation("raised", {"arm": an, "history": list(H[hi]), "theta": None, "primed": True}, repr(e) + traceback.format_exc()[-400:])
         if hi == 0:
             try:
                 for tn, th, ratio in near_singular_points(ref):
@@ -414,7 +454,10 @@ def replay(rec):
     arm, ref = armlib.build(c["arm"], rec.get("seed", 0))
     TH = c05.theta_palette(ref)
     try:
-        arm, ref = apply_hist(arm, ref, tuple(c["history"]), TH)
+        if c.get("primed"):
+            arm, ref = primed_state(c["arm"], tuple(c["history"]), rec.get("seed", 0))
+        else:
+            arm, ref = apply_hist(arm, ref, tuple(c["history"]), TH)
         pts = theta_points(ref, rec.get("seed", 0))
         if str(c.get("theta", "")).startswith("near_singular"):
             for tn, th, ratio in near_singular_points(ref):
